@@ -4,7 +4,14 @@ import copy
 from hypothesis import strategies as st
 from hypothesis.stateful import RuleBasedStateMachine, initialize, precondition, rule
 
-from vlib import observe, recipes as R, runner
+import json
+import os
+import subprocess
+import sys
+
+from vlib import observe, recipes as R, ref6, repo, runner
+from vlib import jsonvals as jv
+from vlib import schemas as sg
 from vlib.jsonvals import canon
 from vlib.values_for import values_for
 
@@ -22,6 +29,9 @@ RULE = (
     "model configuration; non-trivial = history with a validate before and after a reconfiguration "
     "that flips the verdict of an already-used value; distinct = distinct canon(recipe, history)"
 )
+RULE += (
+    ' Keywords are also reassigned to JSON lookalikes of their current value (true/1/1.0, 2/2.0). After a reconfiguration each verdict also gets a second opinion from ref6; where that differs, the same configuration and value are judged in a NEW interpreter (vlib/fresh_driver.py) and only a difference between this process and the pristine one is reported.'
+)
 ASSUMPTIONS = [
     "only the reconfiguration forms named by the statement/docs: attribute assignment, properties assignment, properties[...] = / del",
     "no shared sub-elements and no inheritance in these trees (a parent's later reconfiguration is C15's subject)",
@@ -30,6 +40,25 @@ ASSUMPTIONS = [
 BUDGET = {"quick": (180, 14), "thorough": (1400, 30)}
 
 observe.register_formats()
+_DEV = ref6.Opts(int_is_int=True, formats=sg.FORMAT_PREDICATES, waiver=True)
+PRISTINE = {"calls": 0, "agreed-with-real": 0}
+
+
+def pristine_verdicts(recipe, values):
+    """Verdicts of the configuration in a NEW interpreter (nothing any earlier call or configuration of this
+    process left behind can reach it)."""
+    home = os.path.dirname(os.path.dirname(os.path.abspath(__file__)))
+    env = dict(os.environ, PYTHONPATH=os.pathsep.join([os.path.join(home, ".deps"), home]), PYTHONHASHSEED="0",
+               VERIF_REPO_DIR=repo.REPO_DIR)
+    p = subprocess.run([sys.executable, "-W", "ignore", "-m", "vlib.fresh_driver"], input=json.dumps(
+        {"recipe": recipe, "values": values}).encode(), stdout=subprocess.PIPE, stderr=subprocess.PIPE, env=env,
+        timeout=300, cwd=home)
+    if p.returncode != 0:
+        raise runner.HarnessError("fresh_driver failed: " + p.stderr.decode()[-600:])
+    PRISTINE["calls"] += 1
+    return json.loads(p.stdout.decode())
+
+
 NP = "<NotPassed>"
 CFG = R.RCfg(depth=2, inheritance=False, sharing=False)
 SUB_KEYS = {
@@ -191,6 +220,20 @@ class Harness:
             if not observe.plain_eq(pa, pb):
                 return [{"sub": "validate", "kind": "stale-result", "value": value,
                          "detail": [canon(pa), canon(pb)], "model": copy.deepcopy(self.model)}]
+        if self.n_reconfig and a[0] in ("ok", "reject"):
+            # the element built a moment ago lives in THIS process: state kept process-wide (keyed by configuration,
+            # say) would reach it too. Draft 6 gives a second opinion; where it differs, a new interpreter decides
+            # whether the history is to blame (a plain disagreement with Draft 6 is C01's subject, not this one's).
+            try:
+                expected = ref6.validate(R.to_schema(self.model), copy.deepcopy(value), _DEV)
+            except Exception:  # noqa: BLE001 - aiming only
+                expected = None
+            if expected is not None and expected != (a[0] == "ok"):
+                clean = pristine_verdicts(self.model, [value])[0]
+                if clean[0] != a[0]:
+                    return [{"sub": "validate", "kind": f"verdict-depends-on-process-history:{a[0]}-vs-pristine-{clean[0]}",
+                             "value": value, "model": copy.deepcopy(self.model)}]
+                PRISTINE["agreed-with-real"] += 1
         return []
 
     def duplicate_sources(self, node, prop):
@@ -234,6 +277,34 @@ def overlap_recipes(draw):
     return node
 
 
+@st.composite
+def lookalike_recipes(draw):
+    """Small trees whose literal and numeric keywords hold values with JSON lookalikes (true/1/1.0, false/0, 2/2.0):
+    reassigning one of them to its lookalike is a reconfiguration that sloppy (==/hash-keyed) state cannot see."""
+    scal = st.sampled_from([True, False, 0, 1, 1.0, 0.0, 2, 2.0])
+    def leaf(i):
+        form = draw(st.sampled_from(["const", "enum", "num", "const-nested"]))
+        if form == "const":
+            return {"id": i, "kind": draw(st.sampled_from(["Element", "Element", "Integer", "Number", "Boolean"])),
+                    "kw": {"const": draw(scal)}}
+        if form == "enum":
+            return {"id": i, "kind": "Element", "kw": {"enum": draw(st.lists(scal, min_size=1, max_size=2))}}
+        if form == "const-nested":
+            return {"id": i, "kind": "Element", "kw": {"const": draw(st.sampled_from([[True], {"a": 1}, [0, False]]))}}
+        kw = draw(st.sampled_from(["multipleOf", "minimum", "maximum"]))
+        return {"id": i, "kind": draw(st.sampled_from(["Element", "Number", "Integer"])),
+                "kw": {kw: draw(st.sampled_from([1, 1.0, 2, 2.0]))}}
+
+    shape = draw(st.integers(0, 2))
+    if shape == 0:
+        return leaf(1)
+    if shape == 1:
+        return {"id": 1, "kind": "Array", "kw": {}, "sub": {"items": leaf(2)}}
+    return {"id": 1, "kind": "Element", "kw": {}, "props": [
+        {"name": "a", "source": None, "required": draw(st.booleans()), "element": leaf(2)},
+        {"name": "b", "source": None, "required": False, "element": leaf(3)}]}
+
+
 class Machine(RuleBasedStateMachine):
     _sink = None
     _stats = None
@@ -243,7 +314,8 @@ class Machine(RuleBasedStateMachine):
         self.h = None
         self.counter = 0
 
-    @initialize(recipe=st.one_of(R.recipes(CFG), R.recipes(CFG), R.recipes(CFG), overlap_recipes()), data=st.data())
+    @initialize(recipe=st.one_of(R.recipes(CFG), R.recipes(CFG), R.recipes(CFG), overlap_recipes(), lookalike_recipes()),
+                data=st.data())
     def init(self, recipe, data):
         self.h = Harness(recipe)
         # every history starts with validations, so that later reconfigurations
@@ -284,11 +356,38 @@ class Machine(RuleBasedStateMachine):
             kw = data.draw(st.sampled_from(present))
         else:
             kw = data.draw(st.sampled_from(R.ALLOWED_KW[node["kind"]]))
+        alike = []
+        if kw in present and kw in ("const", "enum", "default"):
+            alike = jv.lookalike(node["kw"][kw])
+        elif kw in present and kw in ("minimum", "maximum", "exclusiveMinimum", "exclusiveMaximum", "multipleOf"):
+            alike = [x for x in jv.lookalike(node["kw"][kw]) if not isinstance(x, bool)]
         if kw in present and data.draw(st.integers(0, 2)) == 0:
             value = NP
+        elif alike and data.draw(st.booleans()):
+            # a value that COMPARES equal to the current one (True/1/1.0, 2/2.0, nested) but is another JSON value
+            value = data.draw(st.sampled_from(alike))
         else:
             value = R._lit_kw(data.draw, R.RCfg(), kw)
+        old = node.get("kw", {}).get(kw, NP)
         self._do({"op": "set_kw", "node": nid, "kw": kw, "value": value})
+        if kw in ("const", "enum") and data.draw(st.booleans()):
+            # the literals themselves, old and new and what they might be confused with, wherever the node sits
+            pool = []
+            for lit in (value, old):
+                if lit == NP:
+                    continue
+                members = lit if kw == "enum" and isinstance(lit, list) else [lit]
+                for m in members[:2]:
+                    pool += [m] + jv.lookalike(m)[:2]
+            schema = R.to_schema(self.h.model)
+            for lit in pool[:4]:
+                base = data.draw(values_for(schema, 1, 1))[0]
+                self._do({"op": "validate", "value": lit})
+                if isinstance(base, dict) and base:
+                    k = data.draw(st.sampled_from(sorted(base)))
+                    self._do({"op": "validate", "value": {**base, k: lit}})
+                elif isinstance(base, list):
+                    self._do({"op": "validate", "value": [lit]})
         self._aimed_validate(data)
 
     @rule(data=st.data())
@@ -425,6 +524,7 @@ class Machine(RuleBasedStateMachine):
         classes = ["op:" + o for o in set(ops)]
         if h.flipped:
             classes.append("verdict-flipping-reconfiguration")
+        self._stats.extra["pristine_process_oracle"] = dict(PRISTINE)
         self._stats.case(canon(h.case()), bool(before and after and h.flipped), classes,
                          n=max(1, h.n_validate), sample=h.case())
 
